@@ -41,8 +41,8 @@ def r14_1(ctx):
                     loc = f.loc()
                     key = f"present={sorted(P)},prior={prior}"
                     if res is None:
-                        ctx.violation(construct(f, "undetermined"), loc, f"component state not determined by task states for {key}: {v!r}")
-                        continue
+                        # the analyser cannot evaluate this formulation: never guess a verdict
+                        raise AnalysisError(f"R14.1: component state not determined by the abstract task states for {key}: {v!r} (unrecognised idiom in check_state)")
                     stores = [e for e in stores_of(st.trace, attr="state") if isinstance(e.recv, Obj) and e.recv.name == "self"]
                     if any(isinstance(e.value, EnumSet) and e.value.single() == "NONE" for e in stores):
                         ctx.violation(construct(f, "stores-NONE"), stores[0].loc, f"check_state stores NONE ({key}): a component must never return to NONE")
